@@ -1,13 +1,14 @@
 #!/bin/bash
-# usage: seedrun.sh <patch.diff> <prop> [<prop>...]   -- applies the patch to /repo, runs the checks, reverts.
-# Evidence files are rewritten by every run; the ones produced with the patch applied are discarded.
+# usage: seedrun.sh <patch.diff> <prop> [<prop>...]
+# Applies the patch to a scratch worktree of /repo's HEAD (never to /repo itself), runs the quick checks
+# against that worktree (GOVC_REPO) with queries/evidence redirected to a scratch directory, and removes both.
 set -u
 P=$1; shift
-cd /repo && git diff --quiet || { echo "repo dirty"; exit 2; }
-SAVE=$(mktemp -d /tmp/evsave.XXXX); cp -a /verif/evidence/. $SAVE/
-git -C /repo apply $P || exit 2
+WT=$(mktemp -d /tmp/seedwt.XXXXXX); rmdir $WT
+OUT=$(mktemp -d /tmp/seedout.XXXXXX)
+git -C /repo worktree add -q --detach $WT HEAD || exit 2
+trap 'git -C /repo worktree remove --force $WT >/dev/null 2>&1; rm -rf $OUT' EXIT
+git -C $WT apply $P || exit 2
 for id in "$@"; do
-  (cd /verif && bin/govc prop -p $id -tier quick 2>&1 | grep -v "^    \(unsat\)" | tail -12); echo "exit($id)=$?"
+  (cd /verif && GOVC_REPO=$WT GOVC_OUT=$OUT bin/govc prop -p $id -tier quick 2>&1 | grep -v "^    \(unsat\)" | tail -12); echo "exit($id)=$?"
 done
-git -C /repo checkout -- .
-cp -a $SAVE/. /verif/evidence/; rm -rf $SAVE
